@@ -10,7 +10,7 @@ from dataclasses import dataclass, field
 
 from sa.consteval import ConstEval, NotConstant
 from sa.model import Model
-from sa.paths import Engine, Path, Unsupported, loop_iterations, show_sv
+from sa.paths import Engine, Path, Unsupported, loop_iterations, show_sv, strip_epoch
 from sa.report import Undecided
 from sa.seqbuf import BufSem
 
@@ -133,15 +133,33 @@ class HdlcModel:
         M, c = self.M, self.reader
         r = Roles()
         init = c.methods["__init__"]
-        for s in ast.walk(init.node):
-            if isinstance(s, (ast.Assign, ast.AnnAssign)):
-                t = s.targets[0] if isinstance(s, ast.Assign) else s.target
-                v = s.value
-                if isinstance(t, ast.Attribute) and isinstance(t.value, ast.Name) and t.value.id == "self" and isinstance(v, ast.Name):
-                    if v.id == "use_octet_stuffing":
-                        r.stuffing = t.attr
-                    if v.id == "use_abort_sequence":
-                        r.abort = t.attr
+        # the two mode flags: the fields that hold the constructor's arguments (final store of __init__, E-PATH: aliases and temporaries resolved)
+        try:
+            ips = [p for p in Engine(M).run(init) if p.status in ("run", "return")]
+        except Unsupported as ex:
+            raise Undecided(f"HdlcFrameReader.__init__ uses a statement outside the analysed subset: {ex}")
+
+        def mentions(sv, x):
+            return sv == x or (isinstance(sv, tuple) and any(mentions(y, x) for y in sv if isinstance(y, tuple)))
+        for role, par in (("stuffing", "use_octet_stuffing"), ("abort", "use_abort_sequence")):
+            if par not in init.params:
+                raise Undecided(f"HdlcFrameReader.__init__ has no parameter {par}")
+            exact, mixed = set(), []
+            for p in ips:
+                for k, v in p.store.items():
+                    if k[0] == "f" and k[1] == SELF:
+                        v0 = strip_epoch(v)
+                        if v0 == ("p", par):
+                            exact.add(k[2])
+                        elif v0[0] in ("bool", "not", "ite", "cmp") and mentions(v0, ("p", par)):
+                            mixed.append((k[2], v0))
+            if len(exact) == 1:
+                setattr(r, role, exact.pop())
+            elif not exact and mixed:
+                from sa.report import ModelViolation
+                raise ModelViolation(f"hdlc.HdlcFrameReader.__init__", f"mode-flag:{par}", f"the reader's {role} mode is not the constructor argument {par} but `{show_sv(mixed[0][1])[:80]}` "
+                                     f"(stored in self.{mixed[0][0]}): for some argument combinations the reader frames the stream in the other mode", self.src.file("hdlc") if hasattr(self, "src") else "han/hdlc.py",
+                                     init.node.lineno)
         p = c.methods.get("unescape_next")
         if p is not None:
             for n in ast.walk(p.node):
